@@ -104,3 +104,32 @@ def vhm_correspondence(ctx, model, harness, cases, per_case, label):
     ctx['cov']['traces_validated_against_impl'] = ctx['cov'].get('traces_validated_against_impl', 0) + st['cases'] - len(st['mismatches'])
     _X.log('correspondence[%s]: %d cases (%d programs), %d trace lines, %d mismatches, %d impl violations' % (label, st['cases'], st['programs'], st['steps'], len(st['mismatches']), len(st['impl_violations'])))
     return st
+
+
+# ---------------------------------------------------------------------------------------------------------------
+# multi-bucket model with grow (Model/VhmGrowDefs.v): at most 3 keys per hash class (a grow to 128 buckets has no model step)
+# ---------------------------------------------------------------------------------------------------------------
+def vhmgrow_model_program(rng):
+    hashm = rng.choice(['id', 'id', 'id', 'id', 'mod2', 'mod4'])
+    cap = rng.choice([1, 1, 1, 1, 2, 4])
+    keys = {'id': list(range(0, 9)), 'mod2': [1, 2, 3, 4, 5, 6], 'mod4': list(range(0, 9))}[hashm]
+    init = [k for k in rng.sample(keys, len(keys)) if rng.random() < 0.3]
+    nth = 2 + (rng.random() < 0.5)
+    prog = []
+    for t in range(nth):
+        ops = []
+        for _ in range(rng.randint(3, 6)):
+            k = rng.choice(keys); op = rng.choice(['ins', 'ins', 'ins', 'ins', 'ins', 'getins', 'del', 'ext', 'get', 'get', 'get'])
+            ops.append('%s %d %d' % (op, k, 10 * k + t + 1) if op in ('ins', 'getins') else '%s %d' % (op, k))
+        prog.append(ops)
+    cfg = {'mode': 'll', 'cap': str(cap), 'hash': hashm}
+    if init: cfg['init'] = '.'.join(map(str, init))
+    return cfg, prog
+VHMGROW_FIXED = [
+  # three grows 1->2->4->8 under concurrent readers and an eraser
+  ({'mode': 'll', 'cap': '1', 'hash': 'id'}, [['ins 0 1', 'ins 8 81', 'ins 4 41', 'ins 12 121', 'ins 2 21'], ['get 0', 'get 8', 'get 4', 'get 12'], ['del 8', 'get 2', 'ext 0']]),
+  # two threads find the same bucket full: one grows, the other waits on resize_lock
+  ({'mode': 'll', 'cap': '1', 'hash': 'id', 'init': '1.2.3'}, [['ins 4 41', 'get 1'], ['ins 5 52', 'get 4'], ['get 3', 'del 3', 'get 3']]),
+  # erase on an empty bucket / on a bucket of a replaced block, insert after remove in the same bucket
+  ({'mode': 'll', 'cap': '2', 'hash': 'mod2', 'init': '1.3.5'}, [['ins 2 21', 'ins 4 41', 'ins 6 61', 'ins 3 33'], ['del 2', 'del 1', 'get 3'], ['ext 5', 'getins 1 13', 'get 6']]),
+]
